@@ -17,6 +17,7 @@ from . import _config
 from . import _external
 from . import _find_external
 from ._change import apply_all
+from ._change import without_changes_in_removed_code
 from ._code_repr import used_hasrepr
 from ._find_external import ensure_import
 from ._flags import Flags
@@ -468,10 +469,18 @@ def pytest_sessionfinish(session, exitstatus):
                     )
                     continue
 
+                # changes of nested snapshots are ignored if an other change removes the code around them
+                kept = {
+                    id(change)
+                    for change in without_changes_in_removed_code(
+                        used_changes + changes[flag]
+                    )
+                }
+
                 cr = ChangeRecorder()
-                apply_all(used_changes, cr)
+                apply_all([c for c in used_changes if id(c) in kept], cr)
                 cr.virtual_write()
-                apply_all(changes[flag], cr)
+                apply_all([c for c in changes[flag] if id(c) in kept], cr)
 
                 any_changes = False
 
